@@ -67,7 +67,7 @@ theorem inv_step' {s s' : State} {t : Tid} (hi : Inv s) (h : step s t = some s')
       exact hi.owner t2 ((hk2 t2 e).mp h2)
 
 theorem inv_init (src : List Int) (qs : List Query) : Inv (init src qs) := by
-  refine ⟨⟨rfl, Nat.zero_le _, ?_, ?_, ?_⟩, ?_, ?_, ?_⟩
+  refine ⟨⟨rfl, Nat.zero_le _, ?_, ?_, ?_, ⟨rfl, rfl⟩⟩, ?_, ?_, ?_⟩
   · intro n h; cases h
   · intro h; cases h
   · intro h; cases h
@@ -94,7 +94,13 @@ theorem stepIter_none {sh : Shared} {t : Tid} {it : Iter} (h : stepIter sh t it 
       exact Or.inr ⟨hpc, by rw [ho]; simp⟩
     · cases h
   · rename_i hpc
-    split at h <;> cases h
+    unfold step138 at h
+    split at h
+    · cases h
+    · split at h
+      · cases h
+      · unfold step138ok at h
+        split at h <;> cases h
   · rename_i hpc; exact Or.inl hpc
 
 /-! ### the termination measure -/
@@ -202,6 +208,8 @@ theorem stepIter_mu {sh sh' : Shared} {t : Tid} {it it' : Iter}
       rw [hm]; simp only [mu]; omega
   · -- l138
     have hm : mu sh.src.length it = (sh.src.length + 1 - it.i) * 40 + 8 + 2 * (10 - it.j) := by unfold mu; rw [hpc]
+    rw [step138_eq hs.noraise] at h
+    unfold step138ok at h
     split at h <;> (
       simp only [Option.some.injEq, Prod.mk.injEq] at h
       obtain ⟨rfl, rfl⟩ := h
